@@ -1804,18 +1804,19 @@ def bijection_zoo(seed=0):
     import jax.random as jr
 
     k = jr.PRNGKey(seed)
-    aff = lambda n_: B.Affine(jnp.arange(n_) * 0.3, jnp.arange(1, n_ + 1) * 0.7)  # noqa: E731
+    sd = 1.0 + 0.17 * seed  # constructor constants differ between seeds too (a model loaded into a seed-1 object must take ALL its arrays from the file)
+    aff = lambda n_: B.Affine(jnp.arange(n_) * 0.3 * sd, jnp.arange(1, n_ + 1) * 0.7 * sd)  # noqa: E731
     zoo = [
-        ("Affine", aff(3), None), ("Loc", B.Loc(jnp.array([0.5, -1.0])), None), ("Scale", B.Scale(jnp.array([0.5, 2.0])), None), ("Exp", B.Exp((2,)), None), ("SoftPlus", B.SoftPlus((2,)), None),
+        ("Affine", aff(3), None), ("Loc", B.Loc(jnp.array([0.5, -1.0]) * sd), None), ("Scale", B.Scale(jnp.array([0.5, 2.0]) * sd), None), ("Exp", B.Exp((2,)), None), ("SoftPlus", B.SoftPlus((2,)), None),
         ("Tanh", B.Tanh((2,)), None), ("LeakyTanh", B.LeakyTanh(1.5, (3,)), None), ("Identity", B.Identity((2,)), None), ("Flip", B.Flip((3,)), None), ("Permute", B.Permute(jnp.array([2, 0, 1])), None),
-        ("TriangularAffine", B.TriangularAffine(jnp.array([0.1, 0.2, 0.3]), jnp.array([[1.0, 5.0, 5.0], [0.3, 2.0, 5.0], [-0.4, 0.2, 0.5]])), None),
-        ("TriangularAffine(trained)", _perturb(B.TriangularAffine(jnp.array([0.1, 0.2, 0.3]), jnp.array([[1.0, 5.0, 5.0], [0.3, 2.0, 5.0], [-0.4, 0.2, 0.5]])), 4, scale=1.0), None),
-        ("TriangularAffine(upper, trained)", _perturb(B.TriangularAffine(jnp.array([0.1, -0.2]), jnp.array([[1.5, -0.7], [3.0, 0.4]]), lower=False), 5, scale=1.0), None),
+        ("TriangularAffine", B.TriangularAffine(jnp.array([0.1, 0.2, 0.3]) * sd, jnp.array([[1.0, 5.0, 5.0], [0.3, 2.0, 5.0], [-0.4, 0.2, 0.5]]) * sd), None),
+        ("TriangularAffine(trained)", _perturb(B.TriangularAffine(jnp.array([0.1, 0.2, 0.3]) * sd, jnp.array([[1.0, 5.0, 5.0], [0.3, 2.0, 5.0], [-0.4, 0.2, 0.5]]) * sd), 4, scale=1.0), None),
+        ("TriangularAffine(upper, trained)", _perturb(B.TriangularAffine(jnp.array([0.1, -0.2]) * sd, jnp.array([[1.5, -0.7], [3.0, 0.4]]) * sd, lower=False), 5, scale=1.0), None),
         ("RationalQuadraticSpline", build_spline_perturbed(4, (-2.0, 3.0), 3), None),
         ("Planar(leaky)", _perturb(B.Planar(k, dim=3, negative_slope=0.2), 1), None), ("Planar(tanh)", _perturb(B.Planar(k, dim=3), 1), None), ("Planar(cond, leaky)", B.Planar(k, dim=2, cond_dim=2, negative_slope=0.5, width_size=4, depth=1), 2),
         ("AdditiveCondition", B.AdditiveCondition(_zoo_half_sum, (2,), (3,)), 3),
         ("Chain", B.Chain([aff(3), B.Tanh((3,)), B.Permute(jnp.array([1, 2, 0]))]), None), ("Invert(Affine)", B.Invert(aff(2)), None),
-        ("Scan(Affine)", B.Scan(eqx.filter_vmap(B.Affine)(jnp.array([[0.1, 0.2], [0.3, -0.4]]), jnp.array([[1.0, 2.0], [0.5, 1.5]]))), None),
+        ("Scan(Affine)", B.Scan(eqx.filter_vmap(B.Affine)(jnp.array([[0.1, 0.2], [0.3, -0.4]]) * sd, jnp.array([[1.0, 2.0], [0.5, 1.5]]) * sd)), None),
         ("Vmap(spline)", B.Vmap(eqx.filter_vmap(lambda: build_spline_perturbed(3, (-1.0, 1.0), None), axis_size=3)(), in_axes=eqx.if_array(0)), None),
         ("Concatenate", B.Concatenate([aff(2), B.Exp((3,))]), None), ("Stack", B.Stack([aff(2), B.Tanh((2,))], axis=-1), None), ("Partial", B.Partial(B.Exp((2,)), jnp.array([0, 2]), (4,)), None),
         ("Reshape", B.Reshape(aff(4), (2, 2)), None), ("EmbedCondition", B.EmbedCondition(B.AdditiveCondition(_zoo_sum, (2,), (1,)), _zoo_first_doubled, (3,)), 3),
